@@ -38,7 +38,7 @@ def unit_cmdnext(twin=False):
             ok = len(w) == 1 and w[0][1] is fld0(ex, s, "next", "P", lb0) and len(frees) == 1 and frees[0].args[0] is lb0
             r.add("search.stale_record_popped_and_freed", DISCHARGED if ok else FAILED, "symex", 0, "%r %r" % (w, [e.args for e in frees]), kind="post")
         else:
-            r.add("search.case_decided", FAILED, "z3", 0, repr(s.pc)[:200])
+            r.add("search.case_decided", UNDECIDED, "z3", 0, repr(s.pc)[:200])
     r.add("reach.search", DISCHARGED if n >= 2 else UNDECIDED, "symex", 0, "%d" % n, kind="vacuity")
     # the loop ends only when found: condition of the do-while
     loops = [x for x in A.walk(fn) if x.get("kind") == "DoStmt"]
